@@ -290,6 +290,24 @@ def run_case(case):
                     break
         except Exception as e:
             problems.append(f"get_time_with_phase raised {type(e).__name__}: {str(e)[:100]}")
+    else:
+        # a table without a reference epoch: the caller supplies one per query -- two queries with different epochs, each answered
+        # relative to its own epoch, and the table still has no epoch afterwards (checked below with everything else)
+        from astropy.time import Time
+
+        try:
+            Pd = np.atleast_1d(s["P"].to_value(u.day))
+            M0r = np.atleast_1d(s["M0"].to_value(u.rad))
+            for ep, phi in ((55000.0, 1.0), (56000.5, -0.5)):
+                tr = Time(ep, format="mjd", scale="tcb")
+                dts = np.atleast_1d((s.get_time_with_phase(phase=phi * u.rad, t_ref=tr) - tr).to_value(u.day))
+                for i in range(min(n, 4)):
+                    M = 2 * math.pi * dts[i] / Pd[i] - M0r[i]
+                    if abs(M - phi) > 1e-6 * (1 + abs(M0r[i]) + abs(phi)):
+                        problems.append(f"get_time_with_phase(t_ref={ep}): mean anomaly at the returned time is {M}, requested {phi}")
+                        break
+        except Exception as e:
+            problems.append(f"get_time_with_phase with a caller-supplied t_ref raised {type(e).__name__}: {str(e)[:100]}")
     try:
         if table_of(s) != base:
             problems.append("the table (values, units or metadata) was modified by read-only operations on it")
